@@ -66,6 +66,9 @@ type Prop struct {
 	// HangWall is the per-case wall-clock watchdog in seconds (default 30). Its firing is
 	// never a verdict; the case is re-run alone under a CPU limit.
 	HangWall int
+	// HangCPU is the CPU-time limit in seconds of the isolated re-run (default 20). Cases that run
+	// many goroutines burn CPU seconds on all cores at once and need more.
+	HangCPU int
 	// MaxShards limits parallelism (0 = all cores).
 	MaxShards int
 	// Assumptions listed in the evidence file.
@@ -339,6 +342,12 @@ func WorkerMain(propID, tier string, seed int64, shard, nshards, from, only int,
 	hang := p.HangWall
 	if hang == 0 {
 		hang = 30
+	}
+	if only >= 0 {
+		// isolated re-run of one case: the verdict is the CPU-time limit set by the parent, never
+		// the wall clock (a loaded machine must not turn a slow case into a hang); the wall-clock
+		// watchdog stays only as a very generous backstop whose firing is inconclusive
+		hang *= 20
 	}
 	atomic.StoreInt64(&w.curStart, time.Now().UnixNano())
 	go func() {
